@@ -137,7 +137,7 @@ fn main() {
             // four threads converting and fitting quantities on a cold converter from the very
             // first operation: whatever the converter caches per unit on first use is contended
             ops.clear();
-            for k in 0..64 {
+            for k in 0..14 {
                 let r = mix(seed, 5000 + (t * 128 + k) as u64);
                 let q = ((r >> 8) % QUANTS.len() as u64) as usize;
                 ops.push(if r % 8 == 0 { Op::ConvertQ(q) } else { Op::TryFraction(q) });
